@@ -78,6 +78,7 @@ def check(rep, model, tier):
     opt_excl(rep, model)
     opt_forward(rep, model)
     window_tiling(rep, model)
+    crossing_total(rep, model)
     common.roview(rep, model, PIPELINE)
     call_bind(rep, model)
     # shared clauses
@@ -104,7 +105,7 @@ def check(rep, model, tier):
                           found='; '.join(f'{c}' + (f' [via {v}]' if v else '') for _, c, v in hits[:3]) + ': a later call with the same dictionary runs with different options')
         else:
             rep.ok('OPTIONS-STABLE', name, f'{fn.path}:{fn.node.lineno} {name}', found='no write through an option dictionary')
-    rep.rules = {k: v for k, v in rep.rules.items() if k in ('DOC-DEFAULT', 'ROW-OFFSETS', 'PAIRING', 'OPT-EXCL', 'OPT-FORWARD', 'WINDOW-TILING', 'EFF-ROVIEW', 'CALL-BIND', 'MID-LOCAL', 'BOUNDARY', 'CROSSING')}
+    rep.rules = {k: v for k, v in rep.rules.items() if k in ('DOC-DEFAULT', 'ROW-OFFSETS', 'PAIRING', 'OPT-EXCL', 'OPT-FORWARD', 'WINDOW-TILING', 'CROSSING-TOTAL', 'EFF-ROVIEW', 'CALL-BIND', 'MID-LOCAL', 'BOUNDARY', 'CROSSING')}
     rep.rule('OPTIONS-STABLE', 'compute_features / compute_shape_features never write to the find_extrema_kwargs dictionary they are given (the one carrying boundary), so the '
                                'requested boundary holds on every call that reuses it (shared with C15)')
     rep.floors = {k: v for k, v in rep.floors.items() if k in ('call sites bound',)}
@@ -140,7 +141,8 @@ def window_tiling(rep, model):
                 return source(x[4])
             if x[0] == 'loopout':
                 return source(x[2])
-            if x[0] in ('slice', 'arr'):
+            if x[0] in ('slice', 'arr', 'idx'):
+                # idx: a fancy-indexed selection (crossings[searchsorted(...)]) still consists of elements of that crossing array
                 return source(x[1])
             if x[0] == 'gamma':
                 a_, b_ = source(x[2]), source(x[3])
@@ -175,6 +177,105 @@ def window_tiling(rep, model):
         else:
             rep.violation('WINDOW-TILING', inst, site, expected='peak window [rise+a, decay+b), trough window [decay+b, rise+a)',
                           found={k: sorted(map(str, v)) for k, v in win.items()})
+
+
+EMPTY_RAISING = ('median', 'mean', 'min', 'max', 'argmax', 'argmin', 'pymin', 'pymax')
+
+
+def _nonempty_facts(c, pol):
+    """position sets known to be non-empty when condition c has truth value pol"""
+    if c[0] == 'not':
+        return _nonempty_facts(c[1], not pol)
+    if c[0] == 'and' and pol or c[0] == 'or' and not pol:
+        out = set()
+        for x in c[1]:
+            out |= _nonempty_facts(x, pol)
+        return out
+    if c[0] == 'cmp' and c[1] == 'Eq' and C(0) in (c[2], c[3]) and not pol:
+        other = c[3] if c[2] == C(0) else c[2]
+        if other[0] == 'len':
+            return {other[1]}
+    if c[0] == 'cmp0' and pol and c[2][0] == 'lin' and len(c[2][2]) == 1 and c[2][2][0][1] == 1 and c[2][2][0][0][0] == 'len' and \
+            (c[1] == 'Gt' and 0 <= c[2][1] or c[1] == 'GtE' and -1 <= c[2][1] < 0):
+        return {c[2][2][0][0][1]}
+    if c[0] == 'call' and c[1] == 'any' and pol and c[2]:
+        return {T.call('flatnonzero', (c[2][0],))}
+    return set()
+
+
+def _surely_nonempty(x, facts):
+    """True / False (a bare position set, no emptiness test on the path) / None (not known)"""
+    if x in facts:
+        return True
+    if x[0] in ('list', 'tuple'):
+        return len(x[1]) > 0
+    if x[0] == 'gamma':
+        a = _surely_nonempty(x[2], facts | _nonempty_facts(x[1], True))
+        b = _surely_nonempty(x[3], facts | _nonempty_facts(x[1], False))
+        if a is False or b is False:
+            return False
+        return True if a and b else None
+    if x[0] == 'call' and x[1] == 'flatnonzero':
+        return False
+    if x[0] == 'call' and x[1] in ('astype', 'sort', 'unique') and x[2]:
+        return _surely_nonempty(x[2][0], facts)
+    return None
+
+
+def crossing_total(rep, model):
+    """the midpoint of a flank is defined even when the half-height level is never crossed inside the window (start and end extremum at the same non-zero
+    voltage, a plateau): a reduction over the set of crossings must be preceded by an emptiness test or a fallback, else int(nan) / an empty reduction raises"""
+    rep.rule('CROSSING-TOTAL', 'in _find_flank_midpoints (closed over its helpers) every reduction (median / mean / min / max / arg* / first element) over a set of crossing '
+                               'positions is reached only where that set is non-empty: through the find_flank_zerox fallback or an explicit emptiness test on the path. A window '
+                               'whose first and last sample are equal and non-zero has no crossing, and the function must still return a midpoint instead of raising')
+    f = model.find('_find_flank_midpoints')
+    site = f'{f.path}:{f.node.lineno} _find_flank_midpoints'
+    for fl in ('rise', 'decay'):
+        b = {f.params[0]: ('param', 'sig'), f.params[1]: C(fl), f.params[2]: ('param', 'n_flanks'), f.params[3]: ('param', 'start'), f.params[4]: ('param', 'end'),
+             f.params[5]: ('param', 'bias')}
+        impl, ctx = E.run(model, f.qual, dict(b))
+        sites, bad = [], []
+
+        def visit(t, facts):
+            if not isinstance(t, tuple) or not t:
+                return
+            if not isinstance(t[0], str):
+                for x in t:
+                    visit(x, facts)
+                return
+            if t[0] == 'gamma' and len(t) == 4:
+                visit(t[1], facts)
+                visit(t[2], facts | _nonempty_facts(t[1], True))
+                visit(t[3], facts | _nonempty_facts(t[1], False))
+                return
+            if t[0] == 'arr' and len(t) == 3:
+                visit(t[1], facts)
+                for k, v, g in t[2]:
+                    visit(k, facts)
+                    visit(g, facts)
+                    visit(v, facts | _nonempty_facts(g, True))
+                return
+            red = None
+            if t[0] == 'call' and t[1] in EMPTY_RAISING and t[2]:
+                red = t[2][0]
+            elif t[0] == 'idx' and t[2] in (C(0), C(-1)) and t[1][0] in ('call', 'gamma') and any(x[0] == 'call' and x[1] == 'flatnonzero' for x in T.walk(t[1])):
+                red = t[1]
+            if red is not None and any(x[0] == 'call' and x[1] == 'flatnonzero' for x in T.walk(red)):
+                r = _surely_nonempty(red, facts)
+                sites.append((t[1] if t[0] == 'call' else 'element', r))
+                if r is False:
+                    bad.append(t)
+            for x in t[1:]:
+                visit(x, facts)
+        if impl is not None:
+            visit(impl, frozenset())
+        if bad:
+            rep.violation('CROSSING-TOTAL', fl, site, expected='a reduction over the crossings of a window only where the set is known to be non-empty (fallback / emptiness test)',
+                          found=f'{T.brief(bad[0], 160)}: no emptiness test on the path; a flank whose extrema have the same non-zero voltage raises instead of yielding a midpoint')
+        elif any(r for _, r in sites):
+            rep.ok('CROSSING-TOTAL', fl, site, found=f'{len(sites)} reduction(s) over crossing sets, each behind a fallback / emptiness test')
+        else:
+            rep.ok('CROSSING-TOTAL', fl, site, found='no reduction over a recognisable crossing set: not decided here (conformance of the search is C03 MID-DEF)', nontrivial=False)
 
 
 def opt_forward(rep, model):
